@@ -730,6 +730,16 @@ func reflectStubs() map[string]StubFn {
 		}
 		c.Return(BoolC(ok))
 	})
+	rt("NumOut", func(c *CallCtx, t types.Type) { c.Return(BVC(64, uint64(t.Underlying().(*types.Signature).Results().Len()))) })
+	rt("NumIn", func(c *CallCtx, t types.Type) { c.Return(BVC(64, uint64(t.Underlying().(*types.Signature).Params().Len()))) })
+	rt("Out", func(c *CallCtx, t types.Type) {
+		i := c.ex.concreteInt(c.args[1].(*Term), "Type.Out index")
+		c.Return(Iface{T: rtypeImplType, V: RType{T: t.Underlying().(*types.Signature).Results().At(i).Type()}})
+	})
+	rt("In", func(c *CallCtx, t types.Type) {
+		i := c.ex.concreteInt(c.args[1].(*Term), "Type.In index")
+		c.Return(Iface{T: rtypeImplType, V: RType{T: t.Underlying().(*types.Signature).Params().At(i).Type()}})
+	})
 	rt("AssignableTo", func(c *CallCtx, t types.Type) { c.Return(BoolC(types.AssignableTo(t, rtArg(c.args[1])))) })
 	return m
 }
